@@ -225,7 +225,12 @@ class AMF:
                     exp=bytes([s.cfg['sst']&255])+bytes.fromhex(s.cfg.get('sd',''))
                     need(0x22 in opt and bytes(opt[0x22])==exp, f"S-NSSAI {bytes(opt.get(0x22,b'')).hex()} != configured {exp.hex()}")
                 if 'dnn' in s.cfg: need(0x25 in opt and bytes(opt[0x25])[1:]==s.cfg['dnn'].encode(),'DNN')
-                ue.psi=psi; ue.ip=bytes([10,45,s.R.randrange(256),s.R.randrange(1,255)]); ue.teid=bytes(s.R.randrange(256) for _ in range(4)); ue.upf=bytes([192,168,s.R.randrange(256),s.R.randrange(1,255)])
+                ue.psi=psi
+                # network-assigned values: any address / TEID is legal; half of the octets are drawn from values that look
+                # like the framing of the messages that carry them (IE ids 0x82 0x86 0x88 0x8b, small lengths, 0, 255)
+                def oct_():
+                    return s.R.choice([0,0,1,2,4,5,6,7,10,13,15,19,20,21,25,26,27,0x29,0x79,0x7b,0x82,0x86,0x88,0x8b,0x8b,255]) if s.R.randrange(2) else s.R.randrange(256)
+                ue.ip=bytes([s.R.choice([10,10,100,172,192,oct_()]),oct_(),oct_(),oct_()]); ue.teid=bytes(oct_() for _ in range(4)); ue.upf=bytes([s.R.choice([10,172,192,oct_()]),oct_(),oct_(),oct_()])
                 qos=bytes(s.R.randrange(256) for _ in range(s.R.choice([9,40,300])))
                 acc=bytes([0x2e,psi,sm[2],0xc2,0x11])+len(qos).to_bytes(2,'big')+qos+bytes([6,1,0,100,1,0,100])
                 if s.R.random()<0.5: acc+=bytes([0x59,0x32])
